@@ -706,10 +706,18 @@ func (e *Engine) next(w *Worker, st *State, g *G, fr *Frame, in *ssa.Next) {
 		}
 		pos++
 	}
-	kz := e.zero(tt.At(1).Type())
-	vz := e.zero(tt.At(2).Type())
+	kz := e.zeroOrNil(tt.At(1).Type())
+	vz := e.zeroOrNil(tt.At(2).Type())
 	e.set(fr, in, Tuple{FalseT, kz, vz})
 	fr.PC++
+}
+
+// zeroOrNil: the unused components of a Next tuple have the invalid type.
+func (e *Engine) zeroOrNil(t types.Type) Value {
+	if b, ok := t.(*types.Basic); ok && b.Kind() == types.Invalid {
+		return nil
+	}
+	return e.zero(t)
 }
 
 var _ = fmt.Sprint
